@@ -2700,3 +2700,419 @@ Example enum_slash_and_number_key_examples :
   enum_check [x5b; x32; x2c; x32; x2e; x30; x5d] = VOk /\
   fst (enum_len [x5b; x31; x2e; x30; x2c; x31; x2e; x30; x30; x5d]) = VErr code_duplication_in_enum 5%N.
 Proof. vm_compute. repeat split; reflexivity. Qed.
+
+(* ================================================================== *)
+(* 8. comments are blanks                                              *)
+(* ================================================================== *)
+Inductive gst := GPre | GCode (i e : bool) | GSlash | GLine | GBlock | GBlockEnd.
+
+Definition dc_next (g : gst) (c : byte) (nxt : option byte) : option (gst * byte) :=
+  match g with
+  | GPre => if is_blank c then Some (GPre, c) else if ch c 91 then Some (GCode false false, c) else None
+  | GCode i e => match nc_next i e c with Some (i', e') => Some (GCode i' e', c) | None => Some (GSlash, x20) end
+  | GSlash => if ch c 47 then Some (GLine, x20) else if ch c 42 then Some (GBlock, x20) else None
+  | GLine => if is_newline c then Some (GCode false false, x20) else Some (GLine, x20)
+  | GBlock => if (ch c 42 && match nxt with Some d => ch d 47 | None => false end)%bool
+              then Some (GBlockEnd, x20) else Some (GBlock, x20)
+  | GBlockEnd => if ch c 47 then Some (GCode false false, x20) else None
+  end.
+Fixpoint decom (g : gst) (bs : bytes) : option bytes :=
+  match bs with
+  | [] => match g with GPre | GCode _ _ | GLine => Some [] | _ => None end
+  | c :: r =>
+    match dc_next g c (hd_error r) with
+    | None => None
+    | Some (g', c') => match decom g' r with Some r' => Some (c' :: r') | None => None end
+    end
+  end.
+Definition decomment (bs : bytes) : option bytes := decom GPre bs.
+
+Definition keep (e : lexev) : bool :=
+  match e_type e with
+  | LiteralBegin | LiteralEnd | ArrayBegin | ArrayEnd | ArrayItemBegin | ArrayItemEnd => true
+  | _ => false
+  end.
+
+Definition stableb (q : st) : bool :=
+  match q with FoundArrayItemBeginOrEmpty | FoundArrayItemBegin | AfterArrayItem | SEndTop => true | _ => false end.
+Definition stable (s : sc) : Prop :=
+  stableb (s_step s) = true /\ s_ret s = [] /\ s_ann s = false /\ s_finds s = [] /\ s_trail s = false.
+Definition cm (q : st) (top : list (ev * N)) (s' : sc) : sc :=
+  mksc q [s_step s'] (top ++ s_stack s') (s_uniq s') [] true (s_unf s') (s_trail s').
+
+Definition Rel (g : gst) (s s' : sc) : Prop :=
+  match g with
+  | GPre => s = s' /\ s_step s' = SBegin /\ s_trail s' = false
+  | GCode i e => s = s' /\ instr (s_step s') = i /\ escb (s_step s') = e /\ plainb (s_step s') = true /\
+                 s_step s' <> SBegin /\ s_trail s' = false
+  | GSlash => stable s' /\ s = set_step StAnyAnnotationStart (set_ret [s_step s'] s')
+  | GLine => stable s' /\ exists b, s = cm StInlineAnnotation [(InlineAnnotationBegin, b)] s' \/
+             exists b2, s = cm StInlineAnnotationText [(InlineAnnotationTextBegin, b2); (InlineAnnotationBegin, b)] s'
+  | GBlock => stable s' /\ exists b, s = cm StMultiLineAnnotation [(MultiLineAnnotationBegin, b)] s' \/
+             exists b2, s = cm StMultiLineAnnotationText [(MultiLineAnnotationTextBegin, b2); (MultiLineAnnotationBegin, b)] s'
+  | GBlockEnd => stable s' /\ exists b, s = cm StMultiLineAnnotationEnd [(MultiLineAnnotationBegin, b)] s'
+  end.
+
+(* ---- in Check mode a step outside annotations does not depend on the look-ahead, and on the
+   data only through the bytes of the literal being read ---- *)
+Lemma end_top_false_la idx s c n n' : end_top false idx s c n = end_top false idx s c n'.
+Proof. unfold end_top. destruct n; destruct n'; reflexivity. Qed.
+
+Lemma end_value_indep d d' idx s c n n' :
+  (forall b rest, s_stack s = (LiteralBegin, b) :: rest -> slice d b idx = slice d' b idx) ->
+  end_value false d idx s c n = end_value false d' idx s c n'.
+Proof.
+  intros H. unfold end_value. destruct (s_stack s) as [|[t b] rest] eqn:Es; [apply end_top_false_la|].
+  destruct t; try reflexivity.
+  unfold validate_value, found. cbn_sc. rewrite Es. rewrite (H b rest eq_refl).
+  destruct (slice d' b idx) as [v|]; [|reflexivity]. destruct (enum_item v) as [k|]; [|reflexivity].
+  destruct (existsb (key_eqb k) (s_uniq s)); [reflexivity|].
+  destruct rest as [|[t2 b2] rest2]; [apply end_top_false_la|reflexivity].
+Qed.
+
+Lemma step1_indep d d' idx s c n n' : plainb (s_step s) = true ->
+  (forall b rest, s_stack s = (LiteralBegin, b) :: rest -> slice d b idx = slice d' b idx) ->
+  step1 false d idx s c n = step1 false d' idx s c n'.
+Proof.
+  intros Hp H. unfold step1, state0. destruct (s_step s); try discriminate Hp; try reflexivity;
+    rewrite ?(end_value_indep d d' idx s c n n' H); try reflexivity.
+  apply end_top_false_la.
+Qed.
+
+(* ---- a slash where a blank would do: the same step, and the annotation opener on top ---- *)
+Lemma step1_slash_blank d idx q ret stk uniq ann unf c1 c2 n1 n2 :
+  cinv q ret (map fst stk) ann -> plainb q = true -> instr q = false -> q <> SBegin ->
+  ch c1 47 = true -> is_blank c2 = true ->
+  match step1 false d idx (mksc q ret stk uniq [] ann unf false) c2 n2 with
+  | SOk s1' =>
+    is_newline c2 = false ->
+    stable (set_finds [] s1') /\
+    step1 false d idx (mksc q ret stk uniq [] ann unf false) c1 n1 =
+      SOk (set_step StAnyAnnotationStart (set_ret [s_step s1'] s1'))
+  | _ => True
+  end.
+Proof.
+  intros Hc Hp Hi Hq H1 H2.
+  destruct q; try discriminate Hp; try discriminate Hi; try congruence;
+    cbn [cinv] in Hc; unfold litstk in *; decomp; subst; inv_map.
+  all: unfold_step.
+  all: try match goal with |- context [validate_value ?d ?i ?s'] =>
+    let Hvs := fresh "Hvs" in
+    pose proof (validate_shape d i s') as Hvs;
+    destruct (validate_value d i s') as [r|s2];
+    [destruct r; try contradiction; try exact I
+    |let k := fresh "k" in destruct Hvs as [k ->]] end.
+  all: cbn_sc; cbn [andb].
+  all: brk_goal.
+  all: norm_negb.
+  all: try exact I.
+  all: try (exfalso; bsolve).
+  all: intros Hnl; try (exfalso; bsolve).
+  all: unfold stable; cbn_sc; cbn [stableb].
+  all: try (split; [repeat split|reflexivity]).
+Qed.
+
+Lemma stable_blank d idx s' n : stable s' -> step1 false d idx s' x20 n = SOk s'.
+Proof.
+  destruct s' as [q ret stk uniq finds ann unf trail]. unfold stable. cbn_sc.
+  intros [Hq [-> [-> [-> ->]]]]. destruct q; try discriminate Hq; unfold_step; reflexivity.
+Qed.
+
+Lemma step_of_step1 lc d idx s c n s1 : step1 lc d idx s c n = SOk s1 -> step lc d idx s c n = SOk s1.
+Proof. intros H. unfold step. destruct (length (s_ret s)); cbn [dispatch]; rewrite H; reflexivity. Qed.
+
+Lemma comment_step d idx g s s' c nxt g' c' racc :
+  match g with GPre | GCode _ _ => False | _ => True end ->
+  Rel g s s' -> dc_next g c nxt = Some (g', c') ->
+  c' = x20 /\
+  exists s1 stk1 racc1, step false d idx s c nxt = SOk s1 /\
+    process_finds idx (s_stack s1) (s_finds s1) racc = (stk1, racc1, true) /\
+    filter keep racc1 = filter keep racc /\ Rel g' (set_finds [] (set_stack stk1 s1)) s'.
+Proof.
+  intros Hg HR Hd. destruct s' as [q ret stk uniq finds ann unf trail].
+  destruct g; try contradiction; cbn [Rel] in HR; unfold stable in HR; cbn_sc_in HR; decomp; subst;
+    unfold dc_next in Hd; brk_hyp Hd; try discriminate Hd; injection Hd as <- <-; (split; [reflexivity|]).
+  all: destruct (is_blank c) eqn:Ebl; destruct (is_newline c) eqn:Enl.
+  all: do 3 eexists; split; [apply step_of_step1; unfold cm; unfold_step;
+    repeat match goal with H : ?b = _ |- context [?b] => rewrite H end; cbn [negb andb];
+    repeat match goal with H : ?b = _ |- context [?b] => rewrite H end; reflexivity|].
+  all: cbn_sc; cbn [process_finds process_found is_opening nonscalar_pair scalar_pair];
+    (split; [reflexivity|]); (split; [reflexivity|]).
+  all: cbn [Rel]; unfold stable, cm; cbn_sc.
+  all: first [ split; [repeat split; first [assumption|reflexivity]
+                      | first [eexists; left; reflexivity | eexists; right; eexists; reflexivity | eexists; reflexivity]]
+             | destruct q; try discriminate H; cbn; repeat split; try reflexivity; discriminate
+             | exfalso; match goal with HH : (ch _ 42 && _)%bool = true |- _ =>
+                 apply andb_prop in HH; destruct HH as [Hst _] end; bsolve ].
+Qed.
+
+Lemma pf_forall (P : ev * N -> Prop) i : forall fs stk stk' evs, Forall P stk -> (forall e, P (e, i)) ->
+  pf i stk fs = Some (stk', evs) -> Forall P stk'.
+Proof.
+  induction fs as [|e r IH]; intros stk stk' evs Hs Hp H; cbn [pf] in H.
+  - inversion H; subst. exact Hs.
+  - destruct (process_found i stk e) as [[s1 x]|] eqn:Ep; [|discriminate H].
+    destruct (pf i s1 r) as [[s2 l]|] eqn:Ep2; [|discriminate H]. inversion H; subst.
+    apply (IH s1 stk' l); [|exact Hp|exact Ep2].
+    destruct (process_found_stack _ _ _ _ _ Ep) as [->|[->|[pb ->]]].
+    + exact Hs.
+    + constructor; [apply Hp|exact Hs].
+    + inversion Hs; assumption.
+Qed.
+
+Definition TA (d d' : bytes) (idx : N) (stk : list (ev * N)) : Prop :=
+  Forall (fun p => fst p = LiteralBegin -> text d (snd p) idx = text d' (snd p) idx) stk.
+
+Lemma TA_slice d d' idx s : length d = length d' -> TA d d' idx (s_stack s) ->
+  forall b rest, s_stack s = (LiteralBegin, b) :: rest -> slice d b idx = slice d' b idx.
+Proof.
+  intros Hl H b rest E. rewrite E in H. apply Forall_inv in H. cbn [fst snd] in H. specialize (H eq_refl).
+  unfold slice. rewrite Hl. unfold text in H. rewrite H. reflexivity.
+Qed.
+
+Lemma TA_step d d' idx c stk fs stk' evs : Forall (below idx) stk ->
+  nth_error d (N.to_nat idx) = Some c -> nth_error d' (N.to_nat idx) = Some c ->
+  TA d d' idx stk -> pf idx stk fs = Some (stk', evs) -> TA d d' (N.succ idx) stk'.
+Proof.
+  intros Hb Hn Hn' H Hp. unfold TA in *. eapply pf_forall; [| |exact Hp].
+  - rewrite Forall_forall in *. intros [t b] Hin Ht. cbn [fst snd] in *.
+    specialize (Hb _ Hin). unfold below in Hb. cbn [snd] in Hb.
+    rewrite (text_snoc d b idx c), (text_snoc d' b idx c) by (try lia; assumption).
+    pose proof (H _ Hin Ht) as E. cbn [snd] in E. rewrite E. reflexivity.
+  - intros e _. cbn [snd]. rewrite (text_one d idx c Hn), (text_one d' idx c Hn'). reflexivity.
+Qed.
+
+Lemma TA_nolit d d' idx stk : (forall p, In p stk -> fst p <> LiteralBegin) -> TA d d' idx stk.
+Proof. intros H. apply Forall_forall. intros p Hin Hp. exfalso. exact (H p Hin Hp). Qed.
+
+Lemma stable_nolit q ret ts ann : stableb q = true -> cinv q ret ts ann -> forall t, In t ts -> t <> LiteralBegin.
+Proof.
+  intros Hq Hc t Hin. destruct q; try discriminate Hq; cbn [cinv] in Hc; decomp; subst;
+    cbn [In] in Hin; decomp; subst; try contradiction; discriminate.
+Qed.
+
+Lemma stable_TA d d' idx s : stable s -> cinv (s_step s) (s_ret s) (map fst (s_stack s)) (s_ann s) ->
+  TA d d' idx (s_stack s).
+Proof.
+  intros [Hq _] Hc. apply TA_nolit. intros p Hin. apply (stable_nolit _ _ _ _ Hq Hc). apply in_map. exact Hin.
+Qed.
+
+Lemma csim_step d d' idx g s s' c c' g' n n' racc racc' s1' stk' evs' :
+  length d = length d' -> Rel g s s' -> Inv d' idx s' -> TA d d' idx (s_stack s') ->
+  nth_error d (N.to_nat idx) = Some c -> nth_error d' (N.to_nat idx) = Some c' ->
+  dc_next g c n = Some (g', c') ->
+  step1 false d' idx s' c' n' = SOk s1' -> s_stack s1' = s_stack s' ->
+  pf idx (s_stack s') (s_finds s1') = Some (stk', evs') ->
+  Inv d' (N.succ idx) (set_finds [] (set_stack stk' s1')) ->
+  filter keep racc = filter keep racc' ->
+  exists s1 stk1 racc1, step false d idx s c n = SOk s1 /\
+    process_finds idx (s_stack s1) (s_finds s1) racc = (stk1, racc1, true) /\
+    filter keep racc1 = filter keep (rev evs' ++ racc') /\
+    Rel g' (set_finds [] (set_stack stk1 s1)) (set_finds [] (set_stack stk' s1')) /\
+    TA d d' (N.succ idx) stk'.
+Proof.
+  intros Hl HR HI HT Hn Hn' Hd E1 Hst Hp HI' Hf.
+  assert (SS : s = s' -> plainb (s_step s') = true -> c' = c ->
+    step false d idx s c n = SOk s1' /\
+    process_finds idx (s_stack s1') (s_finds s1') racc = (stk', rev evs' ++ racc, true) /\
+    filter keep (rev evs' ++ racc) = filter keep (rev evs' ++ racc') /\ TA d d' (N.succ idx) stk').
+  { intros -> Hpl Ec. subst c'. split.
+    - apply step_of_step1. rewrite (step1_indep d d' idx s' c n n' Hpl (TA_slice _ _ _ _ Hl HT)). exact E1.
+    - split.
+      + pose proof (process_finds_pf idx (s_finds s1') (s_stack s1') racc) as P. rewrite Hst, Hp in P.
+        rewrite Hst. exact P.
+      + split; [rewrite !filter_app, Hf; reflexivity|].
+        eapply TA_step; [exact (inv_below _ _ _ HI)|exact Hn|exact Hn'|exact HT|exact Hp]. }
+  destruct g.
+  (* comment states *)
+  3-6: match goal with HR0 : Rel ?g0 _ _ |- _ =>
+         destruct (comment_step d idx g0 s s' c n g' c' racc I HR0 Hd) as [-> [s1 [stk1 [racc1 [C1 [C2 [C3 C4]]]]]]] end.
+  3-6: assert (Hstab : stable s') by (cbn [Rel] in HR; exact (proj1 HR)).
+  3-6: rewrite (stable_blank d' idx s' n' Hstab) in E1; injection E1 as <-.
+  3-6: pose proof (stable_TA d d' (N.succ idx) s' Hstab (inv_c _ _ _ HI)) as HT'.
+  3-6: destruct Hstab as [_ [_ [_ [Hfin _]]]]; rewrite Hfin in Hp; cbn [pf] in Hp; injection Hp as <- <-.
+  3-6: exists s1, stk1, racc1; split; [exact C1|]; split; [exact C2|];
+       split; [cbn [rev app]; rewrite C3; exact Hf|]; split; [|exact HT'].
+  3-6: replace (set_finds [] (set_stack (s_stack s') s')) with s'
+         by (destruct s' as [q ret stk uniq finds ann unf trail]; cbn_sc_in Hfin; subst finds; reflexivity).
+  3-6: exact C4.
+  - (* GPre *)
+    destruct HR as [Es [Hq Htr]]. unfold dc_next in Hd.
+    assert (Hpl : plainb (s_step s') = true) by (rewrite Hq; reflexivity).
+    unfold step1 in E1. rewrite Hq in E1.
+    destruct (is_blank c) eqn:Eb.
+    + injection Hd as <- <-. destruct (SS Es Hpl eq_refl) as [S1 [S2 [S3 S4]]].
+      rewrite Eb in E1. injection E1 as <-.
+      exists s', stk', (rev evs' ++ racc). repeat split; try assumption; cbn_sc; assumption.
+    + destruct (ch c 91) eqn:E91; [|discriminate Hd]. injection Hd as <- <-.
+      destruct (SS Es Hpl eq_refl) as [S1 [S2 [S3 S4]]].
+      rewrite Eb, E91 in E1. cbn [negb] in E1. injection E1 as <-.
+      eexists _, stk', (rev evs' ++ racc). split; [exact S1|]. split; [exact S2|]. split; [exact S3|].
+      split; [|exact S4]. cbn [Rel]. unfold found. cbn_sc. cbn [instr escb plainb].
+      repeat split; try reflexivity; try assumption; discriminate.
+  - (* GCode *)
+    destruct HR as [Es [Hi [He [Hpl [Hq Htr]]]]]. unfold dc_next in Hd.
+    destruct (nc_next i e c) as [[i' e']|] eqn:Enc.
+    + injection Hd as <- <-. destruct (SS Es Hpl eq_refl) as [S1 [S2 [S3 S4]]].
+      exists s1', stk', (rev evs' ++ racc). split; [exact S1|]. split; [exact S2|]. split; [exact S3|].
+      split; [|exact S4].
+      destruct HI as [Hfi Hc _ _]. destruct s' as [q ret stk uniq finds ann unf trail].
+      cbn_sc_in Hfi. cbn_sc_in Hc. cbn_sc_in Hi. cbn_sc_in He. cbn_sc_in Hpl. cbn_sc_in Hq. cbn_sc_in Htr.
+      cbn_sc_in Hp. subst finds trail.
+      assert (Hslash : instr q = false -> ch c 47 = false).
+      { intros Hi0. rewrite <- Hi, Hi0 in Enc. unfold nc_next in Enc. destruct (ch c 47); [discriminate Enc|reflexivity]. }
+      pose proof (step1_sim d' idx q ret stk uniq ann unf c n' false Hc Hpl Hslash) as A.
+      rewrite E1 in A. destruct A as [A1 [A2 [_ [A4 _]]]].
+      rewrite Hi, He, Enc in A4. injection A4 as A4 A5.
+      pose proof (step1_len false d' idx q ret stk uniq ann unf false c n' Hc) as B.
+      rewrite E1 in B. destruct (B stk' evs' Hp) as [_ [B2 _]].
+      cbn [Rel]. cbn_sc. repeat split; auto.
+    + injection Hd as <- <-.
+      assert (E47 : i = false /\ ch c 47 = true).
+      { unfold nc_next in Enc. destruct i; [destruct e; destruct (ch c 34); destruct (ch c 92); discriminate Enc|].
+        destruct (ch c 47); [split; reflexivity|destruct (ch c 34); discriminate Enc]. }
+      destruct E47 as [-> E47]. subst s.
+      pose proof (TA_slice _ _ _ _ Hl HT) as Hsl.
+      pose proof (inv_c _ _ _ HI) as Hc. pose proof (inv_finds _ _ _ HI) as Hfi.
+      pose proof (inv_c _ _ _ HI') as Hc'. cbn_sc_in Hc'.
+      destruct s' as [q ret stk uniq finds ann unf trail].
+      cbn_sc_in Hfi. cbn_sc_in Hc. cbn_sc_in Hi. cbn_sc_in Hpl. cbn_sc_in Hq. cbn_sc_in Htr.
+      cbn_sc_in Hp. cbn_sc_in Hst. subst finds trail.
+      pose proof (step1_slash_blank d' idx q ret stk uniq ann unf c x20 n n' Hc Hpl Hi Hq E47 eq_refl) as A.
+      rewrite E1 in A. destruct (A eq_refl) as [Hstab Horig].
+      eexists _, stk', (rev evs' ++ racc). split.
+      { apply step_of_step1. rewrite (step1_indep d d' idx (mksc q ret stk uniq [] ann unf false) c n n Hpl Hsl). exact Horig. }
+      cbn_sc. split.
+      { pose proof (process_finds_pf idx (s_finds s1') (s_stack s1') racc) as P. rewrite Hst, Hp in P.
+        rewrite Hst. exact P. }
+      split; [rewrite !filter_app, Hf; reflexivity|].
+      destruct s1' as [q1 ret1 stk1 uniq1 finds1 ann1 unf1 trail1]. unfold stable in Hstab. cbn_sc_in Hstab.
+      destruct Hstab as [G1 [G2 [G3 [_ G5]]]]. subst ret1 ann1 trail1. cbn_sc_in Hc'.
+      split.
+      * cbn [Rel]. unfold stable. cbn_sc. repeat split; auto.
+      * apply TA_nolit. intros p Hin. apply (stable_nolit _ _ _ _ G1 Hc'). apply in_map. exact Hin.
+Qed.
+
+Lemma decom_length : forall bs g bs', decom g bs = Some bs' -> length bs = length bs'.
+Proof.
+  induction bs as [|c r IH]; intros g bs' H; cbn [decom] in H.
+  - destruct g; try discriminate H; injection H as <-; reflexivity.
+  - destruct (dc_next g c (hd_error r)) as [[g1 c1]|]; [|discriminate H].
+    destruct (decom g1 r) as [r1|] eqn:E; [|discriminate H]. injection H as <-.
+    cbn [length]. f_equal. exact (IH _ _ E).
+Qed.
+
+Definition gfinal (g : gst) : Prop := match g with GPre | GCode _ _ | GLine => True | _ => False end.
+
+Lemma csim_run d d' : length d = length d' -> forall rest g rest' s s' idx racc racc',
+  decom g rest = Some rest' -> Rel g s s' -> Inv d' idx s' ->
+  skipn (N.to_nat idx) d = rest -> skipn (N.to_nat idx) d' = rest' ->
+  TA d d' idx (s_stack s') -> filter keep racc = filter keep racc' ->
+  r_out (run false d' s' idx rest' racc') = Done ->
+  exists gf, gfinal gf /\
+    r_out (run false d s idx rest racc) = Done /\
+    Rel gf (r_sc (run false d s idx rest racc)) (r_sc (run false d' s' idx rest' racc')) /\
+    r_idx (run false d s idx rest racc) = r_idx (run false d' s' idx rest' racc') /\
+    filter keep (r_evs (run false d s idx rest racc)) = filter keep (r_evs (run false d' s' idx rest' racc')) /\
+    Inv d' (r_idx (run false d' s' idx rest' racc')) (r_sc (run false d' s' idx rest' racc')).
+Proof.
+  intros Hl. induction rest as [|c r IH]; intros g rest' s s' idx racc racc' H HR HI Hsk Hsk' HT Hf Hd;
+    cbn [decom] in H.
+  - assert (Hg : gfinal g) by (destruct g; try discriminate H; exact I).
+    assert (rest' = []) by (destruct g; try discriminate H; injection H as <-; reflexivity). clear Hsk'. subst rest'.
+    exists g. cbn [run]. unfold r_out, r_sc, r_idx, r_evs. cbn [fst snd]. split; [exact Hg|]. split; [reflexivity|]. split; [exact HR|]. split; [reflexivity|]. split; [exact Hf|exact HI].
+  - destruct (dc_next g c (hd_error r)) as [[g1 c1]|] eqn:Ed; [|discriminate H].
+    destruct (decom g1 r) as [r1|] eqn:Edc; [|discriminate H]. injection H as <-.
+    destruct (skipn_cons_nth d _ c r Hsk) as [Hn Hsk1].
+    destruct (skipn_cons_nth d' _ c1 r1 Hsk') as [Hn' Hsk1'].
+    destruct (step_good_step false d' idx s' c1 (hd_error r1) HI Hn') as [Es G].
+    cbn [run] in Hd |- *. rewrite Es in Hd, G |- *.
+    destruct (step1 false d' idx s' c1 (hd_error r1)) as [s1'|code pos| | |sr] eqn:E1; cbn [step_good] in G;
+      try contradiction; try (unfold r_out in Hd; cbn [fst snd] in Hd; discriminate Hd).
+    destruct G as [G1 [G2 [G2' [stk' [evs' [G3 G4]]]]]].
+    pose proof (process_finds_pf idx (s_finds s1') (s_stack s1') racc') as P. rewrite G1, G3 in P.
+    rewrite G1, P in Hd |- *.
+    destruct (csim_step d d' idx g s s' c c1 g1 (hd_error r) (hd_error r1) racc racc' s1' stk' evs'
+                Hl HR HI HT Hn Hn' Ed E1 G1 G3 G4 Hf) as [s1 [stk1 [racc1 [T1 [T2 [T3 [T4 T5]]]]]]].
+    rewrite T1, T2.
+    apply (IH g1 r1); try assumption.
+    + rewrite Nsucc_nat. exact Hsk1.
+    + rewrite Nsucc_nat. exact Hsk1'.
+Qed.
+
+Lemma gline_tail s' m q top : stable s' -> s_stack s' = [] ->
+  (exists b, top = [(InlineAnnotationBegin, b)] /\ q = StInlineAnnotation) \/
+  (exists b b2, top = [(InlineAnnotationTextBegin, b2); (InlineAnnotationBegin, b)] /\ q = StInlineAnnotationText) ->
+  snd (etail (cm q top s') m []) = Eos /\ filter keep (fst (etail (cm q top s') m [])) = [].
+Proof.
+  intros _ Hs [[b [-> ->]]|[b [b2 [-> ->]]]]; unfold etail, cm; cbn_sc; rewrite Hs; cbn [app tail]; split; reflexivity.
+Qed.
+
+(* P6: comments are blanks.  [decomment] replaces every byte of a // or /* */ comment (the line
+   break that ends a line comment included) by a space; it is defined (Some) when no comment
+   stands before the opening bracket, every '/' outside strings begins a comment and every
+   block comment is closed.  If the text without comments is accepted, so is the text with
+   them, with the same value, item and array events (same spans). *)
+Theorem enum_comments_are_blanks : forall bs bs' evs',
+  decomment bs = Some bs' -> scan false bs' = (evs', Eos) ->
+  exists evs, scan false bs = (evs, Eos) /\ filter keep evs = filter keep evs'.
+Proof.
+  intros bs bs' evs' Hdc H. pose proof (decom_length _ _ _ Hdc) as Hl.
+  destruct (run_check bs') as [_ [_ [_ Hne]]]. cbv zeta in Hne.
+  rewrite scan_cases in H. cbv zeta in H. rewrite scan_cases. cbv zeta.
+  set (r' := run false bs' sc0 0%N bs' []) in *.
+  destruct (r_out r') eqn:Eo; try discriminate H; [|congruence].
+  destruct (csim_run bs bs' Hl bs GPre bs' sc0 sc0 0%N [] [] Hdc (conj eq_refl (conj eq_refl eq_refl))
+              (Inv0 bs') eq_refl eq_refl (Forall_nil _) eq_refl Eo) as [gf [Hg [Ro [HR [Hidx [Hev HI]]]]]].
+  fold r' in HR, Hidx, Hev, HI. set (r := run false bs sc0 0%N bs []) in *. rewrite Ro.
+  rewrite etail_acc in H. cbn [fst snd] in H. injection H as Hevs Hout.
+  rewrite (etail_acc (r_sc r)). cbn [fst snd]. eexists. 
+  assert (K : snd (etail (r_sc r) (r_idx r) []) = Eos /\
+              filter keep (fst (etail (r_sc r) (r_idx r) [])) = filter keep (fst (etail (r_sc r') (r_idx r') []))).
+  { destruct gf; try contradiction Hg; cbn [Rel] in HR.
+    - destruct HR as [-> _]. rewrite Hidx. split; [exact Hout|reflexivity].
+    - destruct HR as [-> _]. rewrite Hidx. split; [exact Hout|reflexivity].
+    - destruct HR as [Hst [b HR]].
+      assert (Hpl : plainb (s_step (r_sc r')) = true).
+      { destruct Hst as [Hq _]. destruct (s_step (r_sc r')); try discriminate Hq; reflexivity. }
+      destruct (tail_plain_eos bs' _ _ HI Hpl Hout) as [Hs0 Hf0]. rewrite Hf0.
+      destruct HR as [->|[b2 ->]].
+      + apply (gline_tail _ _ _ _ Hst Hs0). left. exists b. split; reflexivity.
+      + apply (gline_tail _ _ _ _ Hst Hs0). right. exists b, b2. split; reflexivity. }
+  destruct K as [K1 K2]. rewrite K1. split; [reflexivity|].
+  rewrite <- Hevs. rewrite !frev_rev, !filter_rev, !filter_app, K2, Hev. reflexivity.
+Qed.
+
+(* the literals of a rule, in source order: the slices [e_begin, e_end] of the LiteralEnd events
+   (what Values() reads) *)
+Definition literal_tokens (data : bytes) (evs : list lexev) : list (option bytes) :=
+  map (fun e => slice data (e_begin e) (e_end e + 1)%N)
+      (filter (fun e => match e_type e with LiteralEnd => true | _ => false end) evs).
+
+(* "[ /*a*/ 1 // b" LF ", /* c" LF "c */ "x/*y" // d" CR LF ",true/**/,//" LF "null /* e */ ] // f":
+   a comment in every gap of a rule with values of all scalar kinds *)
+Definition comments_example : bytes :=
+  [x5b; x20; x2f; x2a; x61; x2a; x2f; x20; x31; x20; x2f; x2f; x20; x62; x0a;
+   x2c; x20; x2f; x2a; x20; x63; x0a; x63; x20; x2a; x2f; x20; x22; x78; x2f; x2a; x79; x22; x20; x2f; x2f; x20; x64; x0d; x0a;
+   x2c; x74; x72; x75; x65; x2f; x2a; x2a; x2f; x2c; x2f; x2f; x0a;
+   x6e; x75; x6c; x6c; x20; x2f; x2a; x20; x65; x20; x2a; x2f; x20; x5d; x20; x2f; x2f; x20; x66].
+Example enum_comments_example_check : enum_check comments_example = VOk.
+Proof. vm_compute. reflexivity. Qed.
+Example enum_comments_example_tokens :
+  literal_tokens comments_example (fst (scan false comments_example)) =
+    [Some [x31]; Some [x22; x78; x2f; x2a; x79; x22]; Some [x74; x72; x75; x65]; Some [x6e; x75; x6c; x6c]].
+Proof. vm_compute. reflexivity. Qed.
+Example enum_comments_example_blanked :
+  match decomment comments_example with
+  | Some bs' => enum_check bs' = VOk /\
+     literal_tokens bs' (fst (scan false bs')) = literal_tokens comments_example (fst (scan false comments_example))
+  | None => False
+  end.
+Proof. vm_compute. split; reflexivity. Qed.
+(* refused: a comment before the opening bracket, a block comment that is not closed *)
+Example enum_comments_refused :
+  snd (scan false [x2f; x2f; x0a; x5b; x31; x5d]) = Err code_enum_array_expected 0%N /\
+  decomment [x2f; x2f; x0a; x5b; x31; x5d] = None /\
+  snd (scan false [x5b; x31; x5d; x20; x2f; x2a; x20; x63]) = Err code_unexpected_eof 7%N /\
+  decomment [x5b; x31; x5d; x20; x2f; x2a; x20; x63] = None.
+Proof. vm_compute. repeat split; reflexivity. Qed.
